@@ -63,6 +63,8 @@ pub fn format_err(
         .as_ref()
         .map_or("<unknown>", |p| p.to_str().unwrap_or_default());
 
+    // The invisible position is no position: only the file is named.
+    let pos = pos.filter(|pos| *pos != Position::invisible());
     if let Some(pos) = pos {
         writeln!(
             f,
